@@ -534,4 +534,315 @@ Proof.
   rewrite andb_false_r. rewrite <- app_assoc. cbn [app]. destruct br; reflexivity.
 Qed.
 
+(* ---- nested calls, by their flags ---- *)
+Lemma B_expr e : A_stmt e -> forall nxt ps rest m,
+  ok false false e nxt = true -> stop_tok nxt = true -> pp e = Some ps -> hd_error rest = nxt ->
+  (full false e <= m)%nat -> pexpr m fl_expr (toks ps ++ rest) = ROk (Some (norm e), rest).
+Proof.
+  intros hA nxt ps rest m hok hstop hpp hnxt hm.
+  exact (A_B e hA false false nxt hok (fun _ => hstop) ps hpp false false rest hnxt m hm).
+Qed.
+
+Lemma B_elem e : A_stmt e -> forall nxt ps rest m,
+  ok false true e nxt = true -> stop_tok nxt = true -> pp e = Some ps -> hd_error rest = nxt ->
+  (full false e <= m)%nat -> pexpr m fl_elem (toks ps ++ rest) = ROk (Some (norm e), rest).
+Proof.
+  intros hA nxt ps rest m hok hstop hpp hnxt hm.
+  exact (A_B e hA false true nxt hok (fun _ => hstop) ps hpp false false rest hnxt m hm).
+Qed.
+
+Lemma B_type e : A_stmt e -> forall g0 b0 nxt ps rest m,
+  ok true false e nxt = true -> pp e = Some ps -> hd_error rest = nxt ->
+  (full true e <= m)%nat -> pexpr m (mkfl g0 false true b0) (toks ps ++ rest) = ROk (Some (norm e), rest).
+Proof.
+  intros hA g0 b0 nxt ps rest m hok hpp hnxt hm.
+  refine (A_B e hA true false nxt hok _ ps hpp g0 b0 rest hnxt m hm). discriminate.
+Qed.
+
+Lemma B_typ e : A_stmt e -> forall nxt ps rest m,
+  ok true false e nxt = true -> pp e = Some ps -> hd_error rest = nxt ->
+  (full true e <= m)%nat -> pexpr m fl_typ (toks ps ++ rest) = ROk (Some (norm e), rest).
+Proof. intros hA. apply (B_type e hA false false). Qed.
+
+(* no expression before a token that ends one *)
+Lemma pexpr_none m fl t r : (2 <= m)%nat -> ender t = true -> pexpr m fl (t :: r) = ROk (None, t :: r).
+Proof.
+  intros hm ht. destruct m as [|[|k]]; try lia. rewrite pexpr_S. apply po_none. exact ht.
+Qed.
+
+(* ---- the operand of a postfix form ---- *)
+Lemma post_A x px : A_stmt x -> pp x = Some px -> is_operator x = false ->
+  forall el t, ok false el x (Some t) = true ->
+  forall g0 c g P rest',
+  exists c', forall n, (need false x <= n)%nat ->
+    poperand (cost false x + n) (FE g0 el) c g false P (toks px ++ t :: rest') =
+    ppost n (FE g0 el) c' g false P (Some (norm x)) (t :: rest').
+Proof.
+  intros hA hpp hnop el t hok g0 c g P rest'.
+  destruct (hA false el (Some t) hok px hpp g0 false c g P (t :: rest') eq_refl (head_ok_nonop P x hnop)) as [c' h].
+  exists c'. intros n hn. specialize (h n hn).
+  rewrite (spine_nonop _ _ _ _ x hnop), (lastop_nonop _ _ _ _ x hnop), hnop in h. cbn [negb app] in h.
+  rewrite andb_true_r in h. exact h.
+Qed.
+
+Ltac norm_toks := repeat (progress (rewrite ?toks_app, <- ?app_assoc; cbn [toks ExprFullM.T app])).
+
+Ltac fuel := unfold ExprFull_base.full in *; lia.
+
+Ltac split_ok h :=
+  repeat match type of h with
+  | _ && _ = true => let h1 := fresh "hk" in apply andb_prop in h; destruct h as [h h1]
+  end.
+
+Lemma A_index p x i : A_stmt x -> A_stmt i -> A_stmt (XIndex p x i).
+Proof.
+  intros IHx IHi ty el nxt hok ps hpp g0 b0 c g P rest hnxt hh.
+  cbn [ExprFullOk.ok] in hok. destruct ty; [discriminate|]. cbn [negb andb] in hok.
+  apply andb_prop in hok. destruct hok as [hok hi].
+  apply andb_prop in hok. destruct hok as [hok hx].
+  apply andb_prop in hok. destruct hok as [hnop hnd]. apply negb_true_iff in hnop.
+  cbn [ExprFullM.pp] in hpp.
+  destruct (pp x) as [px|] eqn:epx; [|discriminate].
+  destruct (pp i) as [pi|] eqn:epi; [|discriminate].
+  injection hpp as <-.
+  destruct (post_A x px IHx epx hnop el KLBrack hx g0 c g P (toks pi ++ KRBrack :: rest)) as [c' h].
+  exists c'. intros n hn.
+  cbn [ExprFull_base.cost ExprFull_base.need ExprFull_base.spine ExprFull_base.lastop ExprFull_base.norm is_operator negb app] in *.
+  rewrite andb_true_r, FL_false.
+  norm_toks.
+  replace (S (cost false x) + n)%nat with (cost false x + S n)%nat by lia.
+  rewrite h by lia. rewrite pt_index.
+  rewrite (B_expr i IHi (Some KRBrack) pi (KRBrack :: rest) n hi eq_refl epi eq_refl) by fuel.
+  reflexivity.
+Qed.
+
+Lemma stopper_stop t : stopper t = true -> stop_tok (Some t) = true.
+Proof. destruct t; try discriminate; reflexivity. Qed.
+Lemma stopper_ender t : stopper t = true -> ender t = true.
+Proof. destruct t; try discriminate; reflexivity. Qed.
+
+Lemma A_sel p x name : A_stmt x -> A_stmt (XSel p x name).
+Proof.
+  intros IHx ty el nxt hok ps hpp g0 b0 c g P rest hnxt hh.
+  cbn [ExprFullOk.ok] in hok. cbn [ExprFullM.pp] in hpp.
+  destruct (pp x) as [px|] eqn:epx; [|discriminate]. injection hpp as <-.
+  destruct ty.
+  - destruct x as [p' a| | | | | | | | | | | | | | | | | | |]; try discriminate.
+    apply negb_true_iff in hok. cbn [ExprFullM.pp] in epx. injection epx as <-.
+    unfold ident_text. unfold itea in hok. rewrite hok.
+    exists c. intros n hn. norm_toks.
+    cbn [ExprFull_base.cost ExprFull_base.spine ExprFull_base.lastop ExprFull_base.norm is_operator negb app Nat.add].
+    rewrite andb_true_r, FL_true, po_ident_sel. reflexivity.
+  - apply andb_prop in hok. destruct hok as [hok hx].
+    apply andb_prop in hok. destruct hok as [hnop hnd]. apply negb_true_iff in hnop.
+    destruct (post_A x px IHx epx hnop el KPeriod hx g0 c g P (KIdent name :: rest)) as [c' h].
+    exists c'. intros n hn.
+    cbn [ExprFull_base.cost ExprFull_base.need ExprFull_base.spine ExprFull_base.lastop ExprFull_base.norm is_operator negb app] in *.
+    rewrite andb_true_r, FL_false. norm_toks.
+    replace (S (cost false x) + n)%nat with (cost false x + S n)%nat by lia.
+    rewrite h by lia. rewrite pt_sel. reflexivity.
+Qed.
+
+Lemma A_typeassert p x t : A_stmt x -> Qo A_stmt t -> A_stmt (XTypeAssert p x t).
+Proof.
+  intros IHx IHt ty el nxt hok ps hpp g0 b0 c g P rest hnxt hh.
+  cbn [ExprFullOk.ok] in hok. destruct ty; [discriminate|]. cbn [negb andb] in hok.
+  apply andb_prop in hok. destruct hok as [hok ht].
+  apply andb_prop in hok. destruct hok as [hok hx].
+  apply andb_prop in hok. destruct hok as [hnop hnd]. apply negb_true_iff in hnop.
+  destruct t as [t'|]; [|discriminate]. cbn [Qo] in IHt.
+  apply andb_prop in ht. destruct ht as [ht hfirst].
+  cbn [ExprFullM.pp omap opt_pieces] in hpp.
+  destruct (pp x) as [px|] eqn:epx; [|discriminate].
+  destruct (pp t') as [pt|] eqn:ept; [|discriminate].
+  injection hpp as <-.
+  destruct (post_A x px IHx epx hnop el KPeriod hx g0 c g P (KLP :: toks pt ++ KRP :: rest)) as [c' h].
+  exists c'. intros n hn.
+  cbn [ExprFull_base.cost ExprFull_base.need ExprFull_base.spine ExprFull_base.lastop ExprFull_base.norm is_operator negb app omap
+       ExprFull_base.fullo] in *.
+  rewrite andb_true_r, FL_false. norm_toks.
+  replace (S (cost false x) + n)%nat with (cost false x + S n)%nat by lia.
+  rewrite h by lia. rewrite pt_assert.
+  - rewrite (B_type t' IHt true false (Some KRP) pt (KRP :: rest) n ht ept eq_refl) by fuel. reflexivity.
+  - destruct (first_tok_cons t' pt ept) as [t0 [r0 [h1 h2]]]. rewrite h1. rewrite h2 in hfirst. cbn [app assert_start_ok].
+    destruct t0; try reflexivity; [exact hfirst|]. destruct w; try reflexivity. discriminate.
+Qed.
+
+Lemma default_left_nonop l : default_left_ok l = true -> is_operator l = false.
+Proof. destruct l; try discriminate; reflexivity. Qed.
+Lemma default_left_norm l : default_left_ok (norm l) = default_left_ok l.
+Proof. destruct l; reflexivity. Qed.
+
+Lemma A_default p l r : A_stmt l -> A_stmt r -> A_stmt (XDefault p l r).
+Proof.
+  intros IHl IHr ty el nxt hok ps hpp g0 b0 c g P rest hnxt hh.
+  cbn [ExprFullOk.ok] in hok. destruct ty; [discriminate|]. cbn [negb andb] in hok.
+  apply andb_prop in hok. destruct hok as [hok hstop].
+  apply andb_prop in hok. destruct hok as [hok hr].
+  apply andb_prop in hok. destruct hok as [hok hl].
+  apply andb_prop in hok. destruct hok as [htm hdl].
+  cbn [ExprFullM.pp] in hpp.
+  destruct (pp l) as [pl|] eqn:epl; [|discriminate].
+  destruct (pp r) as [pr|] eqn:epr; [|discriminate].
+  injection hpp as <-.
+  destruct (post_A l pl IHl epl (default_left_nonop l hdl) el (KKw WDefault) hl g0 c g P (toks pr ++ rest)) as [c' h].
+  exists c'. intros n hn.
+  cbn [ExprFull_base.cost ExprFull_base.need ExprFull_base.spine ExprFull_base.lastop ExprFull_base.norm is_operator negb app] in *.
+  rewrite andb_true_r, FL_false. norm_toks.
+  replace (S (cost false l) + n)%nat with (cost false l + S n)%nat by lia.
+  rewrite h by lia. rewrite pt_default; [|exact htm|rewrite default_left_norm; exact hdl].
+  rewrite (B_expr r IHr nxt pr rest n hr hstop epr hnxt) by fuel. reflexivity.
+Qed.
+
+(* an optional bound of a slicing, an optional length *)
+Lemma B_opt o : Qo A_stmt o -> forall t po rest m,
+  match o with Some a => ok false false a (Some t) = true | None => True end -> stopper t = true ->
+  opt_pieces (omap pp o) = Some po -> (fullo (full false) o <= m)%nat ->
+  pexpr m fl_expr (toks po ++ t :: rest) = ROk (omap norm o, t :: rest).
+Proof.
+  intros hA t po rest m hok hst hpp hm. destruct o as [a|]; cbn [omap opt_pieces Qo ExprFull_base.fullo] in *.
+  - apply (B_expr a hA (Some t) po (t :: rest) m hok (stopper_stop t hst) hpp eq_refl hm).
+  - injection hpp as <-. cbn [toks app]. apply pexpr_none; [lia|apply stopper_ender; exact hst].
+Qed.
+
+Lemma A_slicing p x lo hi mx fl : A_stmt x -> Qo A_stmt lo -> Qo A_stmt hi -> Qo A_stmt mx -> A_stmt (XSlicing p x lo hi mx fl).
+Proof.
+  intros IHx IHlo IHhi IHmx ty el nxt hok ps hpp g0 b0 c g P rest hnxt hh.
+  cbn [ExprFullOk.ok] in hok. destruct ty; [discriminate|]. cbn [negb andb] in hok.
+  apply andb_prop in hok. destruct hok as [hok hmx].
+  apply andb_prop in hok. destruct hok as [hok hhi].
+  apply andb_prop in hok. destruct hok as [hok hlo].
+  apply andb_prop in hok. destruct hok as [hok hfull].
+  apply andb_prop in hok. destruct hok as [hok hx].
+  apply andb_prop in hok. destruct hok as [hnop hnd]. apply negb_true_iff in hnop.
+  apply eqb_prop in hfull.
+  cbn [ExprFullM.pp] in hpp.
+  destruct (pp x) as [px|] eqn:epx; [|discriminate].
+  destruct (opt_pieces (omap pp lo)) as [pl|] eqn:epl; [|discriminate].
+  destruct (opt_pieces (omap pp hi)) as [ph|] eqn:eph; [|discriminate].
+  destruct (opt_pieces (omap pp mx)) as [pm|] eqn:epm; [|discriminate].
+  injection hpp as <-.
+  destruct (post_A x px IHx epx hnop el KLBrack hx g0 c g P
+              (toks pl ++ KColon :: toks ph ++ toks (match mx with Some _ => ExprFullM.T KColon ++ pm | None => [] end) ++ KRBrack :: rest)) as [c' h].
+  exists c'. intros n hn.
+  cbn [ExprFull_base.cost ExprFull_base.need ExprFull_base.spine ExprFull_base.lastop ExprFull_base.norm is_operator negb app] in *.
+  rewrite andb_true_r, FL_false. norm_toks.
+  replace (S (cost false x) + n)%nat with (cost false x + S n)%nat by lia.
+  rewrite h by lia. rewrite pt_index.
+  rewrite (B_opt lo IHlo KColon pl _ n) by first [reflexivity | assumption | fuel | (destruct lo; [exact hlo|exact I])].
+  cbn [rbind fst snd].
+  destruct mx as [cm|]; cbn [is_some] in *.
+  - norm_toks.
+    rewrite (B_opt hi IHhi KColon ph _ n) by first [reflexivity | assumption | fuel | (destruct hi; [exact hhi|exact I])].
+    cbn [rbind fst snd].
+    rewrite (B_opt (Some cm) IHmx KRBrack pm _ n) by first [reflexivity | assumption | fuel].
+    cbn [rbind fst snd omap]. subst fl. reflexivity.
+  - cbn [toks app].
+    rewrite (B_opt hi IHhi KRBrack ph _ n) by first [reflexivity | assumption | fuel | (destruct hi; [exact hhi|exact I])].
+    cbn [rbind fst snd omap]. subst fl. reflexivity.
+Qed.
+
+(* ---- lists printed with separators ---- *)
+Lemma seq_opt_F2 {A} (f : A -> option (list pc)) l : forall ls, seq_opt (map f l) = Some ls ->
+  Forall2 (fun a q => f a = Some q) l ls.
+Proof.
+  induction l as [|a r IH]; intros ls h; cbn [map seq_opt] in h.
+  - injection h as <-. constructor.
+  - destruct (f a) as [q|] eqn:ea; [|discriminate]. destruct (seq_opt (map f r)) as [r'|]; [|discriminate].
+    injection h as <-. constructor; [exact ea|]. apply IH. reflexivity.
+Qed.
+
+Lemma join_opt_F2 {A} sep (f : A -> option (list pc)) l pa : join_opt sep (map f l) = Some pa ->
+  exists ls, Forall2 (fun a q => f a = Some q) l ls /\ pa = sep_by sep ls.
+Proof.
+  unfold join_opt. destruct (seq_opt (map f l)) as [ls|] eqn:e; [|discriminate]. intros h. injection h as <-.
+  exists ls. split; [apply seq_opt_F2; exact e|reflexivity].
+Qed.
+
+Lemma sep_by_cons {A} (sep x : list A) r :
+  sep_by sep (x :: r) = match r with [] => x | _ :: _ => x ++ sep ++ sep_by sep r end.
+Proof. destruct r; reflexivity. Qed.
+
+(* ---- calls ---- *)
+Definition okargs (fin : tk) : list ex -> bool :=
+  fix go (l : list ex) : bool :=
+    match l with
+    | [] => true
+    | a :: r => ok false false a (sep_next (is_nil r) KComma fin) && go r
+    end.
+
+Definition needargs (l : list ex) : nat := fold_right (fun a acc => S (full false a + acc)) 3%nat l.
+
+Lemma args_run : forall args ls, Forall2 (fun a q => pp a = Some q) args ls -> Forall A_stmt args ->
+  forall fin rest, stopper fin = true -> fin <> KComma -> okargs fin args = true ->
+  forall acc m, (args = [] -> acc = []) -> (needargs args <= m)%nat ->
+  pargs m (toks (sep_by comma_sp ls) ++ fin :: rest) acc = ROk (acc ++ map norm args, fin :: rest).
+Proof.
+  induction 1 as [|a q args ls hq hrest IH]; intros hA fin rest hst hnc hok acc m hacc hm.
+  - rewrite (hacc eq_refl). cbn [sep_by toks app map needargs fold_right] in *.
+    destruct m as [|k]; [lia|]. rewrite pargs_S, pexpr_none by (try lia; apply stopper_ender; exact hst).
+    reflexivity.
+  - inversion hA as [|x y hAa hAr]. subst x y.
+    cbn [okargs] in hok. apply andb_prop in hok. destruct hok as [hoka hokr].
+    cbn [needargs fold_right] in hm. destruct m as [|k]; [lia|].
+    rewrite pargs_S, sep_by_cons. cbn [map].
+    destruct hrest as [|a2 q2 args' ls' hq2 hrest'].
+    + cbn [is_nil sep_next] in hoka.
+      rewrite (B_expr a hAa (Some fin) q (fin :: rest) k hoka (stopper_stop fin hst) hq eq_refl) by (unfold needargs in *; fuel).
+      cbn [rbind]. destruct fin; try reflexivity; try discriminate. contradiction.
+    + cbn [is_nil sep_next] in hoka. rewrite !toks_app. change (toks comma_sp) with [KComma]. rewrite <- !app_assoc. cbn [app].
+      rewrite (B_expr a hAa (Some KComma) q (KComma :: toks (sep_by comma_sp (q2 :: ls')) ++ fin :: rest) k hoka eq_refl hq eq_refl)
+        by (unfold needargs in *; fuel).
+      cbn [rbind].
+      rewrite (IH hAr fin rest hst hnc hokr (acc ++ [norm a]) k) by (try discriminate; unfold needargs in *; cbn [fold_right] in *; fuel).
+      rewrite <- app_assoc. reflexivity.
+Qed.
+
+Lemma A_call p f args v : A_stmt f -> Forall A_stmt args -> A_stmt (XCall p f args v).
+Proof.
+  intros IHf IHargs ty el nxt hok ps hpp g0 b0 c g P rest hnxt hh.
+  cbn [ExprFullOk.ok] in hok. destruct ty; [discriminate|]. cbn [negb andb] in hok.
+  apply andb_prop in hok. destruct hok as [hok hargs].
+  apply andb_prop in hok. destruct hok as [hf hv].
+  cbn [ExprFullM.pp] in hpp.
+  destruct (pp f) as [pf|] eqn:epf; [|discriminate].
+  destruct (join_opt comma_sp (map pp args)) as [pa|] eqn:epa; [|discriminate].
+  injection hpp as <-.
+  destruct (join_opt_F2 _ _ _ _ epa) as [ls [hF2 ->]].
+  set (fin := if v then KEllipsis else KRP) in *.
+  assert (hfc : if np_call f return Prop then ok false false f (Some KRP) = true
+                else ok false el f (Some KLP) = true /\ head_ok P f).
+  { destruct (np_call f); [exact hf|]. apply andb_prop in hf. destruct hf as [hf hx].
+    apply andb_prop in hf. destruct hf as [hnop _]. apply negb_true_iff in hnop.
+    split; [exact hx|apply head_ok_nonop; exact hnop]. }
+  destruct (child_A f (np_call f) pf IHf epf false el (Some KLP) g0 b0 c g P
+              (KLP :: toks (sep_by comma_sp ls) ++ toks (if v then ExprFullM.T KEllipsis else []) ++ KRP :: rest) eq_refl hfc) as [c' h].
+  exists false. intros n hn.
+  cbn [ExprFull_base.cost ExprFull_base.need ExprFull_base.spine ExprFull_base.lastop ExprFull_base.norm is_operator negb app] in *.
+  rewrite andb_true_r. norm_toks.
+  replace (S (if np_call f then 1 else cost false f) + n)%nat with ((if np_call f then 1 else cost false f) + S n)%nat by lia.
+  rewrite h by (unfold ExprFull_base.full in *; destruct (np_call f); lia).
+  assert (hop : (if np_call f then add_paren (norm f) else lastop f) = pw (np_call f) (norm f) /\
+                (if np_call f then [] else spine f) = [] /\
+                (if np_call f then g else g && negb (is_operator f)) = g).
+  { destruct (np_call f) eqn:enc; [auto|]. apply andb_prop in hf. destruct hf as [hf _].
+    apply andb_prop in hf. destruct hf as [hnop _]. apply negb_true_iff in hnop.
+    rewrite (lastop_nonop _ _ _ _ f hnop), (spine_nonop _ _ _ _ f hnop), hnop. cbn [negb pw]. rewrite andb_true_r. auto. }
+  destruct hop as [ho1 [ho2 ho3]]. rewrite ho1, ho2, ho3. cbn [app]. rewrite FL_false.
+  rewrite pt_call.
+  assert (hrun : pargs n (toks (sep_by comma_sp ls) ++ fin :: (if v then KRP :: rest else rest)) [] =
+                 ROk ([] ++ map norm args, fin :: (if v then KRP :: rest else rest))).
+  { apply args_run; try assumption.
+    - unfold fin. destruct v; reflexivity.
+    - unfold fin. destruct v; discriminate.
+    - reflexivity.
+    - unfold needargs. unfold ExprFull_base.full in *. destruct (np_call f); lia. }
+  replace (toks (sep_by comma_sp ls) ++ toks (if v then ExprFullM.T KEllipsis else []) ++ KRP :: rest)
+    with (toks (sep_by comma_sp ls) ++ fin :: (if v then KRP :: rest else rest)) by (unfold fin; destruct v; reflexivity).
+  rewrite hrun. cbn [rbind fst snd app].
+  unfold fin, call_tail. destruct v; cbn [fst snd andb].
+  - destruct args as [|a0 args0]; [discriminate|]. cbn [map]. reflexivity.
+  - reflexivity.
+Qed.
+
 End Main.
